@@ -64,7 +64,7 @@ func check(rec *hx.Recorder, c chainCase) (string, bool) {
 		// reference results with a whole-buffer reader on the first file alone
 		refFile, refErr := fit.Decode(bytes.NewReader(first))
 		if refErr != nil {
-			msg = fmt.Sprintf("HARNESS: generated file does not decode: %v", refErr)
+			msg = fmt.Sprintf("Decode rejects a valid file (well-formed by construction, read in one piece): %v", refErr)
 			return
 		}
 		in := withSentinel
